@@ -15,6 +15,15 @@ CLAIMS = {
   note=TB + "numpy/torch/jax elementwise exp/log/sum/max are modelled, not verified; floating-point rounding is outside the real-number "
        "theorems except for the range-safety statements (all exp arguments <= 0, log arguments in [1,N]).",
   technique="Lean 4 proof (Mathlib real analysis) + differential correspondence model-vs-implementation + direct oracle"),
+ "C16": dict(
+  text="Refinement theorems for every sample class, value type, field subset and index list: row j of S[sel] is row sel[j] of S in every "
+       "per-sample field including log_w/weights (select_refines), selection carries evidence/temperature and recomputes only the ESS, "
+       "slices/masks reduce to index lists, consecutive pieces of a partition concatenate back to the original columns, pickling is the identity "
+       "and dict round trips are the identity on sets as their constructor left them; the two known findings are proved as facts about the model. "
+       "Random op sequences on the real classes (3 namespaces x 2 widths) are compared with the model and with a plain-array reference.",
+  note=TB + "numpy/torch/jax indexing, concatenate and pickle are modelled (gather by index list), not verified; selectors are normalised to "
+       "index lists by the harness.",
+  technique="Lean 4 proof (refinement to list-of-rows spec) + differential op-sequence correspondence + plain-array oracle"),
 }
 NOT_YET = "check not built yet (work in progress; see DESIGN.md section 10)"
 
